@@ -72,6 +72,10 @@ def equal(a, b):
     except Exception:
         pass
     try:
+        # the slow path only helps on small expressions with Abs / powers; on large ones a non-zero expanded numerator is final
+        # (a mutated tree otherwise spends minutes inside simplify() proving nothing)
+        if sp.count_ops(d) > 150:
+            return False
         if sp.simplify(sp.together(d)) == 0:
             return True
         n, _ = sp.fraction(sp.cancel(sp.together(d)))
